@@ -197,6 +197,18 @@ def _leaf(r, pool, ids, rel, opts):
                                     relationship_type=rel)
     else:  # pragma: no cover
         raise AssertionError(vt)
+    if vt in ('NUM', 'TEXT', 'CODE', 'IMAGE') and opts.get('leaf_children', 0) > 0 and r.random() < 0.2:
+        # content below a NON-container item (e.g. NUM inferred from an image or 3-D coordinates): "any depth" is not
+        # "any depth of containers"
+        o2 = dict(opts)
+        o2['leaf_children'] = opts['leaf_children'] - 1
+        kids = sr.ContentSequence()
+        for _ in range(r.choice([1, 1, 2])):
+            c, cs = _leaf(r, pool, ids, r.choice(['INFERRED FROM', 'HAS PROPERTIES', 'HAS CONCEPT MOD']), o2)
+            kids.append(c)
+            spec['children'].append(cs)
+        it.ContentSequence = kids
+        spec['has_seq'] = True
     return it, spec
 
 
@@ -250,6 +262,7 @@ def content_tree(r, pool, depth=3, scoord3d=False, foreign=0.0, **opts):
     o = dict(opts)
     o['scoord3d'] = scoord3d
     o['foreign'] = foreign
+    o.setdefault('leaf_children', 2)
     ids = _Ids()
     return _container(r, pool, ids, None, depth, o)
 
